@@ -493,7 +493,7 @@ func runLogin(p *loginPlan, schedSeed uint64, replay []simrt.Choice, lenient, ke
 		}
 		pr.OnMsg = func(m *ClientMsg) {
 			switch {
-			case len(m.Body) > 0 && m.Body[0] == 0x71: // logout
+			case len(m.Body) == 2 && m.Body[0] == 0x71 && m.Type != peer.BufLogin: // logout (token and options byte)
 				pr.SendPackets(peer.Packetise(peer.Done(0, 0, 0), nil, peer.BufResponse, 0, true))
 			case m.Index == 0:
 				if f, _, err := parseLoginRecord(m.Body); err == nil {
@@ -940,9 +940,19 @@ func (c09) Gen(r *Rand, idx int, tier string) interface{} {
 		}
 		return 0
 	}
+	rawSecrets := r.Pct(40)
 	marker := func(n int) []byte {
 		b := r.Bytes(n)
-		for i := range b { // keep markers printable and unmistakable
+		if rawSecrets {
+			// any bytes: NUL, quotes, percent signs, bytes that are TDS tokens, bytes above 0x7f
+			for i := range b {
+				if r.Pct(20) {
+					b[i] = Pick(r, []byte{0x00, 0x27, 0x25, 0x65, 0x71, 0xD7, 0xEC, 0xFF, 0x80, 0x0A, 0x20})
+				}
+			}
+			return b
+		}
+		for i := range b { // printable and unmistakable
 			b[i] = "ABCDEFGHJKLMNPQRSTUVWXYZ23456789"[int(b[i])%32]
 		}
 		return b
@@ -1331,9 +1341,6 @@ func (c09) Run(plan interface{}, schedSeed uint64, replay []simrt.Choice, lenien
 		// (3) markers nowhere in the written bytes outside fields configured to contain them
 		var allWritten []byte
 		for _, m := range obs.sent {
-			if len(m.Body) > 0 && m.Body[0] == 0x71 {
-				continue
-			}
 			allWritten = append(allWritten, m.Body...)
 		}
 		for si, s := range secrets {
@@ -1369,7 +1376,7 @@ func (c09) Run(plan interface{}, schedSeed uint64, replay []simrt.Choice, lenien
 			}
 		}
 		// the second message, if the negotiation got that far
-		if len(obs.sent) >= 2 && len(obs.sent[1].Body) > 0 && obs.sent[1].Body[0] != 0x71 {
+		if len(obs.sent) >= 2 && len(obs.sent[1].Body) > 0 && !(len(obs.sent[1].Body) == 2 && obs.sent[1].Body[0] == 0x71) {
 			toks, err := parseClientTokens(obs.sent[1].Body, 0)
 			if err != nil {
 				v.Violate("unexplained-bytes", "second login message not explained", "%s: %v", where, err)
@@ -1507,6 +1514,14 @@ func (c09) Run(plan interface{}, schedSeed uint64, replay []simrt.Choice, lenien
 		}
 	}
 	judge(obs, p.Password, p.RemotePw, p.User)
+	// whatever bytes the secrets consist of: a valid acceptance is a successful login (C08's passwords are tame)
+	if v.Class == "" && p.Class == "MUST-SUCCEED" {
+		for _, o := range []*loginObs{obs, obs.twin} {
+			if o != nil && o.loginErr != nil {
+				v.Violate("false-failure", "login with these secrets failed on a valid acceptance", "edit [%s], encrypted=%v, key %d bits, nonce %d, password %q, %d remote servers: Login returned %v", p.Edit, p.Encrypted, p.KeyBits, p.NonceLen, unhex(p.Password), p.Remote, o.loginErr)
+			}
+		}
+	}
 	if obs.twin != nil && v.Class == "" {
 		v.Probe("concurrent-logins")
 		judge(obs.twin, p.TwinPassword, p.TwinRemotePw, twinUser(p.User))
